@@ -97,5 +97,30 @@ def run(out, tier, seed):
     cases += 1
     if bad:
         failures.append({"obligation": "C18/unknown-job-error", "inputs": "progress of unknown job", "observed": answer, "class": "history"})
+    # job identifiers are never reused - also when the id source repeats itself (real uuid.UUID objects, as uuid.uuid4 returns them)
+    import uuid as _uuid
+    ids = [_uuid.UUID(int=1), _uuid.UUID(int=1), _uuid.UUID(int=1), _uuid.UUID(int=2), _uuid.UUID(int=3)]
+    saved = (router.uuid.uuid4, router.get_context, router.getfqdn, router._spawn_subprocess)
+    it = iter(ids)
+    router.uuid.uuid4 = lambda: next(it)
+    router.get_context = lambda: mock.MagicMock()
+    router.getfqdn = lambda: "gw"
+    router._spawn_subprocess = lambda spec, addr, job_id: None
+    try:
+        r = router.JobRouter(mock.MagicMock())
+        a = r.spawn_job(mock.MagicMock())
+        s = Sock()
+        s.inbox.append(report.serialize(report.ControllerReport(a, "50.00", 5, [(ds, b"payload-a")])))
+        server.handle_controller(s, r)
+        b = r.spawn_job(mock.MagicMock())   # the id source repeats the first id twice before giving a new one
+        cases += 1
+        if a == b or len(r.jobs) != 2:
+            failures.append({"obligation": "C18/job-ids-never-reused", "inputs": "uuid source yields the same UUID again", "observed": f"ids {a!r}, {b!r}; jobs known: {len(r.jobs)}", "class": "history"})
+        elif r.progress_of([a])[a] != "50.00" or r.get_result(a, ds) != b"payload-a":
+            failures.append({"obligation": "C18/job-ids-never-reused", "inputs": "uuid source yields the same UUID again", "observed": "the first job's progress / result changed when a second job was submitted", "class": "history"})
+    except Exception as e:  # noqa
+        failures.append({"obligation": "C18/job-ids-never-reused", "inputs": "uuid source yields the same UUID again", "observed": f"{type(e).__name__}: {e}", "class": "history"})
+    finally:
+        router.uuid.uuid4, router.get_context, router.getfqdn, router._spawn_subprocess = saved
     out.add_bounded("gateway report histories", "exhaustive enumeration", f"all sequences of {n} reports over an alphabet of {len(alphabet)} (2 jobs, 3 timestamps, result, shutdown) through the real handle_controller/handle_fe",
                     cases, nontrivial, time.time() - t0, samples, failures)
